@@ -162,6 +162,8 @@ __CPROVER_ensures((VF_RV == 0 && attr_ret != NULL) ==> (VF_OFF(*attr_ret) - VF_O
     VF_RAD_B(*attr_ret, 0) == attr_type))
 __CPROVER_ensures((VF_RV == 0 && attr_ret != NULL && offset_ret != NULL) ==>
     VF_RAD_PTR_AT(*attr_ret, pkt, *offset_ret))
+/* not found / malformed: the outputs are untouched */
+__CPROVER_ensures(VF_RV != 0 ==> (VF_RAD_KEEP(attr_ret) && VF_RAD_KEEP(offset_ret)))
 ;
 
 static inline int
@@ -174,6 +176,7 @@ __CPROVER_ensures(pkt == NULL ==> VF_RV == EINVAL)
 __CPROVER_ensures((VF_RV == 0 && offset_ret != NULL) ==> VF_RAD_ATTR_AT(pkt, *offset_ret))
 __CPROVER_ensures((VF_RV == 0 && offset_ret != NULL) ==> *offset_ret >= offset)
 __CPROVER_ensures((VF_RV == 0 && offset_ret != NULL) ==> VF_RAD_B(pkt, *offset_ret) == attr_type)
+__CPROVER_ensures(VF_RV != 0 ==> VF_RAD_KEEP(offset_ret))
 ;
 
 #define VF_RAD_DATA_OUT_PRE(type, data, len)					\
@@ -499,6 +502,170 @@ __CPROVER_ensures(VF_RV == 0 ==> (vf_hm_n == 1 && vf_hm_key[0] == key && vf_hm_k
     vf_hm_len[0] == VF_RAD_LEN(pkt) && VF_HM_DIG_IS(msg_authenticator, 0)))
 __CPROVER_ensures((VF_RV == 0 && vf_md5_k < VF_RAD_LEN(pkt)) ==> vf_hm_at[0] ==
     VF_RAD_MA_INPUT(vf_md5_k, pkt, VF_RAD_MA_OFF(pkt, attr), pkt_authenticator_inside != 0, pkt_req))
+;
+
+/* ---- in-place forms: the output lies INSIDE the packet (exact spans) -------------------------------
+ * Pure contracts (no function of that name in radius.h): enforce / replace with
+ *   radius_pkt_attr_msg_authenticator_calc/radius_pkt_attr_msg_authenticator_calc_inplace
+ *   radius_pkt_authenticator_calc/radius_pkt_authenticator_calc_inplace
+ * The hashed strings are stated over the packet AFTER the call: only the 16 output bytes change, and the
+ * strings take those positions as zero (Message-Authenticator) / as the field's value at entry
+ * (authenticator with pkt_authenticator_inside; ghost vf_rad_auth_old = byte vf_md5_k of the packet at
+ * entry, tied by the SNAP_AUTH precondition). */
+extern uint8_t vf_rad_auth_old;
+#define VF_RAD_SNAP_AUTH(pkt)							\
+	__CPROVER_requires((pkt) == NULL || vf_md5_k < 4 || vf_md5_k >= 20 || vf_rad_auth_old == VF_RAD_B(pkt, vf_md5_k))
+
+int
+radius_pkt_attr_msg_authenticator_calc_inplace(rad_pkt_hdr_p pkt, rad_pkt_attr_p attr,
+    uint8_t *key, size_t key_len, int pkt_authenticator_inside, rad_pkt_hdr_p pkt_req,
+    uint8_t *msg_authenticator)
+__CPROVER_requires(key_len <= VF_RAD_PKT_MAX)
+__CPROVER_requires(pkt != NULL && VF_RAD_PKT(pkt))
+__CPROVER_requires(VF_RAD_RET_PTR(attr, rad_pkt_attr_p, pkt))
+__CPROVER_requires(VF_RAD_MA_OFF(pkt, attr) >= VF_RAD_HDR_SIZE && VF_RAD_LEN(pkt) - VF_RAD_MA_OFF(pkt, attr) >= 2 &&
+    VF_RAD_B(attr, 1) >= 2 && VF_RAD_B(attr, 1) <= VF_RAD_LEN(pkt) - VF_RAD_MA_OFF(pkt, attr))
+__CPROVER_requires(key == NULL || key_len == 0 || __CPROVER_is_fresh(key, key_len))
+__CPROVER_requires(pkt_req == NULL || __CPROVER_is_fresh(pkt_req, VF_RAD_HDR_SIZE))
+/* the output IS the attribute's value */
+__CPROVER_requires(VF_RAD_RET_PTR(msg_authenticator, uint8_t *, pkt) &&
+    VF_OFF(msg_authenticator) == VF_OFF(attr) + 2)
+__CPROVER_requires(vf_hm_n == 0)
+__CPROVER_assigns(VF_RAD_B(attr, 1) == 18: __CPROVER_object_upto(msg_authenticator, 16))
+__CPROVER_assigns(VF_HM_GHOST_ASSIGNS)
+__CPROVER_ensures(VF_RV == 0 || VF_RV == EINVAL || VF_RV == EBADMSG)
+__CPROVER_ensures((key == NULL && key_len != 0) ==> VF_RV == EINVAL)
+__CPROVER_ensures((!(key == NULL && key_len != 0) && VF_RAD_B(attr, 1) != 18) ==> VF_RV == EBADMSG)
+__CPROVER_ensures(VF_RV == 0 ==> (vf_hm_n == 1 && vf_hm_key[0] == key && vf_hm_key_len[0] == key_len &&
+    vf_hm_len[0] == VF_RAD_LEN(pkt) && VF_HM_DIG_IS(msg_authenticator, 0)))
+__CPROVER_ensures((VF_RV == 0 && vf_md5_k < VF_RAD_LEN(pkt)) ==> vf_hm_at[0] ==
+    VF_RAD_MA_INPUT(vf_md5_k, pkt, VF_RAD_MA_OFF(pkt, attr), pkt_authenticator_inside != 0, pkt_req))
+;
+
+/* byte k of Code||Id||Len||A||Attrs||Secret when the result replaces the packet's own field */
+#define VF_RAD_AUTH_INPUT_INPLACE(k, pkt, inside, pkt_req, key)			\
+	(((k) < 4 || ((k) >= 20 && (k) < VF_RAD_LEN(pkt))) ? VF_RAD_B(pkt, k) :	\
+	 ((k) < 20) ? ((inside) ? vf_rad_auth_old : VF_RAD_CODE_ZEROAUTH(VF_RAD_B(pkt, 0)) ? (uint8_t)0 : VF_RAD_B(pkt_req, k)) : \
+	 (key)[(k) - VF_RAD_LEN(pkt)])
+int
+radius_pkt_authenticator_calc_inplace(rad_pkt_hdr_p pkt, uint8_t *key, size_t key_len,
+    int pkt_authenticator_inside, rad_pkt_hdr_p pkt_req, uint8_t *authenticator)
+__CPROVER_requires(key_len <= VF_RAD_PKT_MAX)
+__CPROVER_requires(pkt != NULL && VF_RAD_PKT(pkt))
+VF_RAD_SNAP_AUTH(pkt)
+__CPROVER_requires(key == NULL || key_len == 0 || __CPROVER_is_fresh(key, key_len))
+__CPROVER_requires(pkt_req == NULL || __CPROVER_is_fresh(pkt_req, VF_RAD_HDR_SIZE))
+/* the output IS the packet's authenticator field */
+__CPROVER_requires(VF_RAD_RET_PTR(authenticator, uint8_t *, pkt) && VF_OFF(authenticator) == VF_OFF(pkt) + 4)
+__CPROVER_requires(vf_md5_n == 0)
+__CPROVER_assigns(__CPROVER_object_upto(authenticator, 16))
+__CPROVER_assigns(VF_MD5_GHOST_ASSIGNS)
+__CPROVER_ensures(VF_RV == 0 || VF_RV == EINVAL)
+__CPROVER_ensures((key == NULL && key_len != 0) ==> VF_RV == EINVAL)
+/* random authenticators: the field is copied onto itself, i.e. unchanged */
+__CPROVER_ensures((!(key == NULL && key_len != 0) && VF_RAD_CODE_RANDOM(VF_RAD_B(pkt, 0))) ==>
+    (VF_RV == 0 && vf_md5_n == 0 && (vf_md5_k < 4 || vf_md5_k >= 20 || VF_RAD_B(pkt, vf_md5_k) == vf_rad_auth_old)))
+__CPROVER_ensures(VF_RAD_AUTH_HASHED(pkt) ==> (vf_md5_n == 1 && vf_md5_len[0] == VF_RAD_LEN(pkt) + key_len &&
+    VF_MD5_DIG_IS(authenticator, 0)))
+__CPROVER_ensures((VF_RAD_AUTH_HASHED(pkt) && pkt_authenticator_inside == 0) ==>
+    (VF_RAD_CODE_ZEROAUTH(VF_RAD_B(pkt, 0)) || (VF_RAD_CODE_REPLY(VF_RAD_B(pkt, 0)) && pkt_req != NULL)))
+__CPROVER_ensures((VF_RAD_AUTH_HASHED(pkt) && vf_md5_k < VF_RAD_LEN(pkt) + key_len) ==>
+    vf_md5_at[0] == VF_RAD_AUTH_INPUT_INPLACE(vf_md5_k, pkt, pkt_authenticator_inside != 0, pkt_req, key))
+;
+
+/* ---- drivers ------------------------------------------------------------------------------------ */
+/* offset of the Message-Authenticator the two functions below worked on, when it can be named */
+#define VF_RAD_MA_O(offset, offset_ret)	((offset) != 0 ? (offset) : *(offset_ret))
+#define VF_RAD_MA_O_KNOWN(offset, offset_ret)	((offset) != 0 || (offset_ret) != NULL)
+#define VF_RAD_MA_DRIVER_PRE(pkt, key, key_len, pkt_req, offset_ret)		\
+	__CPROVER_requires(key_len <= VF_RAD_PKT_MAX)				\
+	__CPROVER_requires(VF_RAD_PKT(pkt))					\
+	__CPROVER_requires(key == NULL || key_len == 0 || __CPROVER_is_fresh(key, key_len))	\
+	__CPROVER_requires(pkt_req == NULL || __CPROVER_is_fresh(pkt_req, VF_RAD_HDR_SIZE))	\
+	__CPROVER_requires(VF_OUT_OPT(offset_ret, size_t))			\
+	__CPROVER_requires(vf_hm_n == 0)
+
+/* verify the Message-Authenticator at `offset` (0 = find it): accepted <=> its 16 value bytes equal
+ * HMAC-MD5(secret, packet with those 16 bytes zeroed), byte for byte; -1 = there is none */
+static inline int
+radius_pkt_attr_msg_authenticator_chk(rad_pkt_hdr_p pkt, size_t offset,
+    uint8_t *key, size_t key_len, int pkt_authenticator_inside, rad_pkt_hdr_p pkt_req,
+    size_t *offset_ret)
+VF_RAD_MA_DRIVER_PRE(pkt, key, key_len, pkt_req, offset_ret)
+__CPROVER_assigns(offset_ret != NULL: *offset_ret)
+__CPROVER_assigns(VF_HM_GHOST_ASSIGNS)
+__CPROVER_ensures(VF_RV == 0 || VF_RV == -1 || VF_RV == EINVAL || VF_RV == EBADMSG)
+__CPROVER_ensures(pkt == NULL ==> VF_RV == EINVAL)
+__CPROVER_ensures((VF_RV == 0 || VF_RV == EBADMSG) ==> (offset_ret == NULL || offset == 0 || *offset_ret == offset))
+/* accepted: a well-formed Message-Authenticator attribute at o whose value is the HMAC of the packet */
+__CPROVER_ensures((VF_RV == 0 && VF_RAD_MA_O_KNOWN(offset, offset_ret)) ==>
+    (VF_RAD_ATTR_AT(pkt, VF_RAD_MA_O(offset, offset_ret)) && VF_RAD_B(pkt, VF_RAD_MA_O(offset, offset_ret)) == 80 &&
+     VF_RAD_B(pkt, VF_RAD_MA_O(offset, offset_ret) + 1) == 18))
+__CPROVER_ensures(VF_RV == 0 ==> (vf_hm_n == 1 && vf_hm_key[0] == key && vf_hm_key_len[0] == key_len &&
+    vf_hm_len[0] == VF_RAD_LEN(pkt)))
+__CPROVER_ensures((VF_RV == 0 && VF_RAD_MA_O_KNOWN(offset, offset_ret)) ==>
+    VF_HM_DIG_IS(&VF_RAD_B(pkt, VF_RAD_MA_O(offset, offset_ret) + 2), 0))
+__CPROVER_ensures((VF_RV == 0 && VF_RAD_MA_O_KNOWN(offset, offset_ret) && vf_md5_k < VF_RAD_LEN(pkt)) ==> vf_hm_at[0] ==
+    VF_RAD_MA_INPUT(vf_md5_k, pkt, VF_RAD_MA_O(offset, offset_ret), pkt_authenticator_inside != 0, pkt_req))
+/* rejected with EBADMSG after a completed HMAC: some value byte differs from the digest (any mismatch rejects) */
+__CPROVER_ensures((VF_RV == EBADMSG && vf_hm_n == 1 && VF_RAD_MA_O_KNOWN(offset, offset_ret) &&
+    VF_RAD_ATTR_AT(pkt, VF_RAD_MA_O(offset, offset_ret)) && VF_RAD_B(pkt, VF_RAD_MA_O(offset, offset_ret) + 1) == 18) ==>
+    !VF_HM_DIG_IS(&VF_RAD_B(pkt, VF_RAD_MA_O(offset, offset_ret) + 2), 0))
+;
+
+/* (re)compute the Message-Authenticator at `offset` (0 = find it) and store it in place */
+static inline int
+radius_pkt_attr_msg_authenticator_update(rad_pkt_hdr_p pkt, size_t offset,
+    uint8_t *key, size_t key_len, int pkt_authenticator_inside, rad_pkt_hdr_p pkt_req,
+    size_t *offset_ret)
+VF_RAD_MA_DRIVER_PRE(pkt, key, key_len, pkt_req, offset_ret)
+__CPROVER_assigns(pkt != NULL: __CPROVER_object_whole(pkt))
+__CPROVER_assigns(offset_ret != NULL: *offset_ret)
+__CPROVER_assigns(VF_HM_GHOST_ASSIGNS)
+VF_RAD_SNAP(pkt)
+__CPROVER_ensures(VF_RV == 0 || VF_RV == -1 || VF_RV == EINVAL || VF_RV == EBADMSG)
+__CPROVER_ensures(pkt == NULL ==> VF_RV == EINVAL)
+__CPROVER_ensures((VF_RV == 0 && VF_RAD_MA_O_KNOWN(offset, offset_ret)) ==>
+    (VF_RAD_ATTR_AT(pkt, VF_RAD_MA_O(offset, offset_ret)) && VF_RAD_B(pkt, VF_RAD_MA_O(offset, offset_ret)) == 80 &&
+     VF_RAD_B(pkt, VF_RAD_MA_O(offset, offset_ret) + 1) == 18))
+/* the stored value is the HMAC of the packet as it now stands (value bytes taken as zero) */
+__CPROVER_ensures(VF_RV == 0 ==> (vf_hm_n == 1 && vf_hm_key[0] == key && vf_hm_key_len[0] == key_len &&
+    vf_hm_len[0] == VF_RAD_LEN(pkt)))
+__CPROVER_ensures((VF_RV == 0 && VF_RAD_MA_O_KNOWN(offset, offset_ret)) ==>
+    VF_HM_DIG_IS(&VF_RAD_B(pkt, VF_RAD_MA_O(offset, offset_ret) + 2), 0))
+__CPROVER_ensures((VF_RV == 0 && VF_RAD_MA_O_KNOWN(offset, offset_ret) && vf_md5_k < VF_RAD_LEN(pkt)) ==> vf_hm_at[0] ==
+    VF_RAD_MA_INPUT(vf_md5_k, pkt, VF_RAD_MA_O(offset, offset_ret), pkt_authenticator_inside != 0, pkt_req))
+/* frame: only the 16 value bytes change */
+__CPROVER_ensures((pkt != NULL && VF_RAD_MA_O_KNOWN(offset, offset_ret) && VF_RV == 0 && vf_rad_k < vf_rad_span &&
+    !(vf_rad_k >= VF_RAD_MA_O(offset, offset_ret) + 2 && vf_rad_k < VF_RAD_MA_O(offset, offset_ret) + 18)) ==>
+    VF_RAD_B(pkt, vf_rad_k) == vf_rad_old)
+__CPROVER_ensures((pkt != NULL && (VF_RV == -1 || (VF_RV == EINVAL && vf_hm_n == 0)) && vf_rad_k < vf_rad_span) ==> VF_RAD_B(pkt, vf_rad_k) == vf_rad_old)
+;
+
+/* store the Response / Accounting-Request authenticator in the packet's field */
+static inline int
+radius_pkt_authenticator_update(rad_pkt_hdr_p pkt, uint8_t *key, size_t key_len,
+    int pkt_authenticator_inside, rad_pkt_hdr_p pkt_req)
+__CPROVER_requires(key_len <= VF_RAD_PKT_MAX)
+__CPROVER_requires(VF_RAD_PKT(pkt))
+VF_RAD_SNAP_AUTH(pkt)
+VF_RAD_SNAP(pkt)
+__CPROVER_requires(key == NULL || key_len == 0 || __CPROVER_is_fresh(key, key_len))
+__CPROVER_requires(pkt_req == NULL || __CPROVER_is_fresh(pkt_req, VF_RAD_HDR_SIZE))
+__CPROVER_requires(vf_md5_n == 0)
+__CPROVER_assigns(pkt != NULL: __CPROVER_object_upto((uint8_t *)pkt + 4, 16))
+__CPROVER_assigns(VF_MD5_GHOST_ASSIGNS)
+__CPROVER_ensures(VF_RV == 0 || VF_RV == EINVAL)
+__CPROVER_ensures(pkt == NULL ==> VF_RV == EINVAL)
+__CPROVER_ensures((pkt != NULL && VF_RAD_CODE_RANDOM(VF_RAD_B(pkt, 0))) ==> (VF_RV == 0 && vf_md5_n == 0 &&
+    (vf_md5_k < 4 || vf_md5_k >= 20 || VF_RAD_B(pkt, vf_md5_k) == vf_rad_auth_old)))
+/* the field now holds MD5(Code||Id||Len||A||Attrs||Secret) of the packet as it stands */
+__CPROVER_ensures((pkt != NULL && VF_RAD_AUTH_HASHED(pkt)) ==> (vf_md5_n == 1 && vf_md5_len[0] == VF_RAD_LEN(pkt) + key_len &&
+    VF_MD5_DIG_IS(&VF_RAD_B(pkt, 4), 0)))
+__CPROVER_ensures((pkt != NULL && VF_RAD_AUTH_HASHED(pkt) && vf_md5_k < VF_RAD_LEN(pkt) + key_len) ==>
+    vf_md5_at[0] == VF_RAD_AUTH_INPUT_INPLACE(vf_md5_k, pkt, pkt_authenticator_inside != 0, pkt_req, key))
+/* frame: nothing outside the field */
+__CPROVER_ensures((pkt != NULL && vf_rad_k < vf_rad_span && (vf_rad_k < 4 || vf_rad_k >= 20)) ==> VF_RAD_B(pkt, vf_rad_k) == vf_rad_old)
 ;
 #endif /* VF_RAD_MD5_CHAIN */
 
